@@ -89,7 +89,8 @@ pub fn fault_targets() -> Vec<(Option<String>, String, String)> {
         (Some("ws://hosta:9001".to_string()), "/t0".to_string(), "in".to_string()),
         (Some("ws://hosta:9001".to_string()), "/t1".to_string(), "in".to_string()),
         (None, "/t2".to_string(), "in".to_string()),
-        (Some("ws://hostb:9002".to_string()), "/t3".to_string(), "in".to_string()),
+        // (port 80 is the default of the scheme: "ws://hostb" is a spelling of the same endpoint)
+        (Some("ws://hostb:80".to_string()), "/t3".to_string(), "in".to_string()),
         (None, "/t4".to_string(), "in".to_string()),
     ]
 }
@@ -311,7 +312,7 @@ impl<'a> Gen<'a> {
                     if self.rng.chance(1, 12) && self.next_send < 1_000_000_000_000_000 {
                         self.next_send = self.next_send * 10 + 1;
                     }
-                    Act::Send { target, v: self.next_send, mode }
+                    Act::Send { target, v: self.next_send, mode: self.handle_mode(mode) }
                 }
                 Focus::Persist => match self.rng.below(8) {
                     0 | 1 => {
@@ -447,12 +448,29 @@ impl<'a> Gen<'a> {
         FaultPlan { keys, target_keys, answers, retry, timeout_ms: FAULT_TIMEOUT_MS }
     }
 
+    /// One registered send in five goes through another `Commander` handle of the same target (created
+    /// from an equivalent spelling of its address, see `agentdef::host_spelling`). Derived from the
+    /// value about to be sent, not drawn, so that the rest of the script is what it was before.
+    fn handle_mode(&self, mode: u32) -> u32 {
+        if mode != 0 && self.next_send % 5 == 2 {
+            mode + 2 * (1 + (self.next_send / 5 % 3) as u32)
+        } else {
+            mode
+        }
+    }
+
     /// A command (from remote `r`) whose handler sends `n` commands to one target.
     fn send_burst(&mut self, r: usize, target: u32, n: u64, mode: Option<u32>) -> Step {
         let mut acts = vec![];
         for _ in 0..n {
             self.next_send += *self.rng.pick(&[1u64, 1, 2, 7, 85, 900]);
-            let mode = mode.unwrap_or_else(|| *self.rng.pick(&[0u32, 1, 2, 2]));
+            let mode = match mode {
+                Some(m) => m,
+                None => {
+                    let m = *self.rng.pick(&[0u32, 1, 2, 2]);
+                    self.handle_mode(m)
+                }
+            };
             acts.push(Act::Send { target, v: self.next_send, mode });
         }
         Step::Command(r, CMD.to_string(), self.cmd_body(acts).1)
